@@ -44,6 +44,39 @@ Record par := { xpos : align; ypos : align; par_none : bool; par_slice : bool }.
 Definition Qmaxf (a b : Q) := if Qle_bool a b then b else a.
 Definition Qminf (a b : Q) := if Qle_bool a b then a else b.
 
+(* CSS source level: a function of the `transform` property as written
+   (after tokenisation; names are ASCII case-insensitive), before
+   css/validation/validation.go transformFunction normalises it. *)
+Inductive angle_unit := Deg | Grad | Rad | Turn.
+Inductive css_src :=
+| CRotate (v : Q) (u : angle_unit)
+| CSkewX (v : Q) (u : angle_unit) | CSkewY (v : Q) (u : angle_unit)
+| CSkew1 (v : Q) (u : angle_unit)                 (* skew(a) *)
+| CTranslate1 (x : dim) | CTranslate2 (x y : dim) | CTranslateX (x : dim) | CTranslateY (y : dim)
+| CScale1 (s : Q) | CScale2 (sx sy : Q) | CScaleX (s : Q) | CScaleY (s : Q)
+| CMatrix (a b c d e f : Q).
+(* trig oracle for CSS angles: (value, unit) -> cos, sin, tan of the angle *)
+Definition ctrig := Q -> angle_unit -> Q * Q * Q.
+(* validation.go:3884-3952 transformFunction (+ getMatrix's reading of the
+   normalised value): rotate keeps the angle; skewx/skew(a) -> skew(a, 0);
+   skewy -> skew(0, a); translatex/translate(x) -> translate(x, 0);
+   translatey -> translate(0, y); scalex -> scale(s, 1); scaley -> scale(1, s);
+   scale(s) -> scale(s, s).  tan 0 is 0 (math.Tan(0) == 0). *)
+Definition css_normalise (tr : ctrig) (f : css_src) : tfun :=
+  match f with
+  | CRotate v u => TRotate (fst (fst (tr v u))) (snd (fst (tr v u)))
+  | CSkewX v u | CSkew1 v u => TSkew (snd (tr v u)) 0
+  | CSkewY v u => TSkew 0 (snd (tr v u))
+  | CTranslate1 x | CTranslateX x => TTranslate x (Px 0)
+  | CTranslate2 x y => TTranslate x y
+  | CTranslateY y => TTranslate (Px 0) y
+  | CScale1 s => TScale s s
+  | CScale2 sx sy => TScale sx sy
+  | CScaleX s => TScale s 1
+  | CScaleY s => TScale 1 s
+  | CMatrix a b c d e f => TMatrix a b c d e f
+  end.
+
 (* Everything below is written against an arithmetic record `ar`:
    ar = exactQ is the instance the theorems are about, ar = f32 the instance
    the correspondence check runs (Base/F32.v). Negation is exact in both. *)
